@@ -101,6 +101,9 @@ type Walker struct {
 	// times (loop back edge).
 	Revisit func(p *PState, b *ssa.BasicBlock)
 
+	// PhiAssign is called when a block is entered along an edge, with its φ-nodes and the
+	// (resolved) incoming values, before the assignment takes effect.
+	PhiAssign func(p *PState, phis []*ssa.Phi, vals []ssa.Value)
 	// Reenter is called when a block is entered again on the same path (loop), before the
 	// facts about the values it defines are dropped.
 	Reenter func(p *PState, b *ssa.BasicBlock)
@@ -367,6 +370,9 @@ func (w *Walker) walk(b, pred *ssa.BasicBlock, p *PState) {
 					break
 				}
 			}
+		}
+		if w.PhiAssign != nil && len(phis) > 0 {
+			w.PhiAssign(p, phis, vals)
 		}
 		for i, ph := range phis {
 			p.phis[ph] = vals[i]
